@@ -471,6 +471,18 @@ bits_image_fetch_pixel_filtered (bits_image_t  *image,
     }
 }
 
+/* In the wide (float) pipeline the mask buffer holds one argb_t, i.e. four
+ * 32-bit words, per pixel.
+ */
+static force_inline pixman_bool_t
+mask_is_nonzero (const uint32_t *mask, int i, pixman_bool_t wide)
+{
+    if (!wide)
+	return mask[i] != 0;
+
+    return (mask[4 * i] | mask[4 * i + 1] | mask[4 * i + 2] | mask[4 * i + 3]) != 0;
+}
+
 static uint32_t *
 __bits_image_fetch_affine_no_alpha (pixman_iter_t *  iter,
 				    pixman_bool_t    wide,
@@ -513,7 +525,7 @@ __bits_image_fetch_affine_no_alpha (pixman_iter_t *  iter,
 
     for (i = 0; i < width; ++i)
     {
-	if (!mask || mask[i])
+	if (!mask || mask_is_nonzero (mask, i, wide))
 	{
 	    bits_image_fetch_pixel_filtered (
 		&image->bits, wide, x, y, get_pixel, buffer);
@@ -670,7 +682,7 @@ __bits_image_fetch_general (pixman_iter_t  *iter,
     {
 	pixman_fixed_t x0, y0;
 
-	if (!mask || mask[i])
+	if (!mask || mask_is_nonzero (mask, i, wide))
 	{
 	    if (w != 0)
 	    {
